@@ -75,7 +75,7 @@ Proof.
     destruct (nodup_mid _ _ _ _ Hnd2) as (_ & _ & Hx & _). exact Hx.
   - intros H0. apply Hnz. rewrite ids_app. apply in_or_app. right.
     change ((cur, dc) :: Added ++ (x, d) :: t) with (((cur, dc) :: Added) ++ (x, d) :: t). rewrite ids_app. apply in_or_app. left. exact H0.
-  - unfold sfuel_of. rewrite (sr_size _ _ R), lenN_length, !app_length. cbn [length]. rewrite app_length. lia.
+  - unfold sfuel_of. rewrite (sr_size _ _ R), lenN_length. repeat (rewrite ?app_length; cbn [length]). lia.
 Qed.
 
 (** With duplicate-free ids the position of a node is unique. *)
